@@ -529,6 +529,12 @@ def gen_C07(c, rng, tier):
                 us = [rng.choice(us_all) if rng.random() < 0.7 else rand_unit(rng, fmt) for _ in range(dims)]
                 c.add(t, 'icdf', [bins, dims, toks(fmt, xs), toks(fmt, us)],
                       classes=['icdf'] + (['u_is_1'] if Fraction(1) in us else []) + (['u_is_0'] if Fraction(0) in us else []))
+        # every j/bins with both neighbours for bin counts that are not powers of two, on adapted grids (the product u x bins rounds to
+        # the integer j from below for about a third of them: index and in-bin position must come from the same rounded product)
+        for bins in rng.sample([5, 6, 7, 10, 12, 50, 100], scale(tier, 3, 7)):
+            xs = rand_grid(rng, fmt, bins, rng.choice(['random', 'peaked']))
+            for u in special_units(fmt, bins):
+                c.add(t, 'icdf', [bins, 1, toks(fmt, xs), toks(fmt, [u])], classes=['icdf', 'icdf_boundary_neighbours'])
         # many dimensions / many bins / narrow bins: the weight is the product of bins x width over the dimensions
         for _ in range(scale(tier, 12, 80)):
             bins = rng.choice([3, 5, 50, 128]); dims = rng.choice([4, 9, 16, 24])
